@@ -1131,8 +1131,17 @@ namespace hgraph
             // Graph shutdown is not a logical key removal and must not
             // publish erases. The terminal output may already have been
             // detached by its owning service or parent graph.
-            remove_all_entries(view, context, storage, nullptr, nullptr,
-                               evaluation_time);
+            // Best-effort, like the graph-level stop: a child whose stop
+            // throws must not prevent the remaining children from being
+            // stopped now; the first failure is rethrown after the clean-up.
+            FirstExceptionRecorder exceptions;
+            for (std::size_t slot = 0; slot < storage.entries.slot_capacity(); ++slot)
+            {
+                exceptions.capture([&] {
+                    remove_entry_at_slot(view, context, storage, nullptr, nullptr,
+                                         slot, evaluation_time);
+                });
+            }
             storage.unsubscribe_keys_noexcept();
             storage.primed = false;
             storage.refresh_all_bindings = false;
@@ -1142,6 +1151,7 @@ namespace hgraph
             storage.evaluation_slots.clear();
             storage.resume_position_plus_one = 0;
             storage.child_schedule_queue.clear();
+            exceptions.rethrow_if_any();
         }
 
         void validate_map_node_spec(const NodeTypeMetaData &meta, const MapNodeSpec &spec)
